@@ -3,6 +3,6 @@ CONSTANTS
   Elems = {1, 2}
   Workers = {1, 2}
   MaxT = 1
-  MaxSizes = {0, 1}
+  MaxSizes = {0}
   Variant = "code"
 INVARIANTS TypeOK AtMostOnce NeverEarly CancelHonoured CancelRemoves QuietDelivered QuietShutdown
